@@ -84,6 +84,11 @@ theorem ROUND_nearest {n d b : Nat} (hn : 0 < n) (hd : 0 < d) (h : posRatToBits 
   apply div_le_div_of_nonneg_right _ (le_of_lt hpos)
   exact_mod_cast (hnear _ (bitsToNat_grid c)).1
 
+-- 1/3: the delivered pattern 0x3FD5555555555555 is at least as near as every finite double
+example : ∀ c, isFiniteBits c →
+    |((1:Nat):Rat) / (3:Nat) - bitsToRat 0x3FD5555555555555| ≤ |((1:Nat):Rat) / (3:Nat) - bitsToRat c| :=
+  (ROUND_nearest (n := 1) (d := 3) (by norm_num) (by norm_num) (by decide +kernel)).2
+
 /-- **4. ties to even**: if some other finite double is exactly as near to `n/d` as the delivered `b`,
     then the mantissa of `b` is even. -/
 theorem ROUND_ties_even {n d b c : Nat} (hn : 0 < n) (hd : 0 < d) (h : posRatToBits n d = some b)
@@ -99,6 +104,15 @@ theorem ROUND_ties_even {n d b c : Nat} (hn : 0 < n) (hd : 0 < d) (h : posRatToB
     exact_mod_cast this.symm
   · intro heq
     exact hne (bitsToNat_inj (finite_lt hc) (finite_lt hfin) heq)
+
+-- a genuine tie: 2^53 + 1 lies half way between the doubles 2^53 (…000) and 2^53 + 2 (…001); all hypotheses hold
+example : posRatToBits (2^53 + 1) 1 = some 0x4340000000000000 := by decide +kernel
+example : |((2^53 + 1 : Nat):Rat) / (1:Nat) - bitsToRat 0x4340000000000001|
+    = |((2^53 + 1 : Nat):Rat) / (1:Nat) - bitsToRat 0x4340000000000000| := by
+  unfold bitsToRat; norm_num
+example : 0x4340000000000000 % 2 = 0 :=
+  ROUND_ties_even (n := 2^53 + 1) (d := 1) (c := 0x4340000000000001) (by norm_num) (by norm_num)
+    (by decide +kernel) (by unfold isFiniteBits; norm_num) (by norm_num) (by unfold bitsToRat; norm_num)
 
 /-- **5a. overflow**: `none` exactly when `n/d` is at or above `2^1024 − 2^970`, the midpoint between the
     largest finite double and `2^1024` (a tie there goes up, to the even mantissa: overflow). -/
@@ -136,6 +150,14 @@ theorem ROUND_overflow {n d : Nat} (hd : 0 < d) :
     · intro h; exact le_of_mul_le_mul_right h hP
     · intro h; exact mul_le_mul_of_nonneg_right h (le_of_lt hP)
 
+-- both sides of the equivalence occur: the midpoint itself overflows, one below it is the largest finite double
+example : posRatToBits (2^1024 - 2^970) 1 = none := by decide +kernel
+example : posRatToBits (2^1024 - 2^970 - 1) 1 = some 0x7FEFFFFFFFFFFFFF := by decide +kernel
+example : posRatToBits (2^1024 - 2^970) 1 = none :=
+  (ROUND_overflow (n := 2^1024 - 2^970) (d := 1) (by norm_num)).2 (by
+    have h : (2:Nat)^970 ≤ 2^1024 := Nat.pow_le_pow_right (by norm_num) (by norm_num)
+    rw [Nat.cast_sub h]; push_cast; simp)
+
 /-- **5b. zero**: `posRatToBits 0 d = some 0` (+0.0). -/
 theorem ROUND_zero (d : Nat) : posRatToBits 0 d = some 0 := rfl
 
@@ -158,6 +180,10 @@ theorem ROUND_underflow {n d : Nat} (hd : 0 < d) :
     generalize (2:Rat)^(1074:Nat) = P at *
     constructor <;> intro h <;> linarith
 
+-- the tie at exactly 2^-1075 goes to 0; just above it the answer is the smallest subnormal
+example : posRatToBits 1 (2^1075) = some 0 := by decide +kernel
+example : posRatToBits 1 (2^1075 - 1) = some 1 := by decide +kernel
+
 /-- **1. exactness**: the exact value of a finite double, written as any fraction `n/d`, rounds to that
     double — `ratToFloat (floatToRat x) = x` at the level of bit patterns. -/
 theorem ROUND_exact {b n d : Nat} (hb : isFiniteBits b) (hd : 0 < d)
@@ -178,6 +204,11 @@ theorem ROUND_exact {b n d : Nat} (hb : isFiniteBits b) (hd : 0 < d)
     rfl
   · exact exact_int hb hn hd hnat
 
+-- 0.5 = 1/2 (also 2/4, …: the fraction need not be in lowest terms)
+example : posRatToBits 1 2 = some 0x3FE0000000000000 :=
+  ROUND_exact (b := 0x3FE0000000000000) (n := 1) (d := 2) (by unfold isFiniteBits; norm_num) (by norm_num)
+    (by unfold bitsToRat; norm_num)
+
 /-- exactness in the form `ratToFloat` uses it: numerator and denominator of the value in lowest terms. -/
 theorem ROUND_exact_lowest_terms {b : Nat} (hb : isFiniteBits b) :
     posRatToBits (bitsToRat b).num.natAbs (bitsToRat b).den = some b := by
@@ -188,5 +219,11 @@ theorem ROUND_exact_lowest_terms {b : Nat} (hb : isFiniteBits b) :
     rw [← Int.cast_natCast, Int.natAbs_of_nonneg hnum]
   rw [this]
   exact (Rat.num_div_den _).symm
+
+-- the double nearest 0.1, and the largest subnormal
+example : posRatToBits (bitsToRat 0x3FB999999999999A).num.natAbs (bitsToRat 0x3FB999999999999A).den
+    = some 0x3FB999999999999A := ROUND_exact_lowest_terms (by unfold isFiniteBits; norm_num)
+example : posRatToBits (bitsToRat 0x000FFFFFFFFFFFFF).num.natAbs (bitsToRat 0x000FFFFFFFFFFFFF).den
+    = some 0x000FFFFFFFFFFFFF := ROUND_exact_lowest_terms (by unfold isFiniteBits; norm_num)
 
 end KaVerif
